@@ -290,6 +290,67 @@ func runC07(c *eng.Ctx) {
 			c.Check(cleared, "reset forgets the witnesses of "+f, p.Pos(fn.Pos()), "the table is re-initialised", "resetFailovers cancels the timers but keeps the "+f+" entries: witnesses reported before a leadership change still count towards a later failover quorum")
 		}
 	}
+	// a quorum is consumed by the failover it triggers: the same witnesses must not count towards the next one
+	if fn := c.Fn("server.(*failoverStatus).report"); fn != nil {
+		wf := p.Field("server", "failoverStatus", "witnesses")
+		var trig []ssa.Instruction
+		eng.Instrs(fn, func(in ssa.Instruction) {
+			if eng.IsCallTo("server.failover.Failover")(in) {
+				trig = append(trig, in)
+			}
+		})
+		forgets := func(in ssa.Instruction) bool {
+			switch x := in.(type) {
+			case *ssa.Store:
+				if fa, ok := x.Addr.(*ssa.FieldAddr); ok && fieldIs(fa, wf) {
+					_, isMake := x.Val.(*ssa.MakeMap)
+					return isMake
+				}
+			case *ssa.Call:
+				if b, ok := x.Call.Value.(*ssa.Builtin); ok && b.Name() == "clear" && eng.Load(wf, nil)(x.Call.Args[0]) {
+					return true
+				}
+			}
+			return false
+		}
+		ok := len(trig) == 1
+		var w *eng.Witness
+		if ok {
+			var g bool
+			g, w = eng.PrecededBy(fn, trig[0], forgets)
+			ok = g
+			if !ok {
+				// alternatively the entry itself is dropped by whoever handles the failover: not the case for a status object that
+				// stays in metadataAPI.partitionFailovers / groupFailovers, which is what ReportLeader and
+				// ReportGroupCoordinator look up again
+				dropped := true
+				for _, h := range []string{"server.(*metadataAPI).newPartitionFailoverHandler$1", "server.(*metadataAPI).newGroupFailoverHandler$1"} {
+					hf := c.FnQuiet(h)
+					if hf == nil {
+						dropped = false
+						continue
+					}
+					del := false
+					eng.Instrs(hf, func(in ssa.Instruction) {
+						if call, isC := in.(*ssa.Call); isC {
+							if b, isB := call.Call.Value.(*ssa.Builtin); isB && b.Name() == "delete" {
+								del = true
+							}
+						}
+					})
+					if !del {
+						dropped = false
+					}
+				}
+				ok = dropped
+			}
+		}
+		pos := p.Pos(fn.Pos())
+		if len(trig) == 1 {
+			pos = c.Pos(trig[0])
+		}
+		c.Check(ok, "a triggered failover consumes its witnesses", pos, "f.witnesses is re-initialised before Failover is invoked", "report() triggers the failover but keeps the witness set (path "+w.String()+"), and the status object stays registered with its timer stopped: after the leader changed, a single report against the new leader finds the old witnesses and deposes it without a quorum inside the timeout window")
+	}
 	if fn := c.Fn("server.(*metadataAPI).removeStream"); fn != nil {
 		ok := len(eng.CallsIn(fn, "server.failoverStatus.cancel")) > 0
 		c.Check(ok, "stream removal cancels partition failovers", p.Pos(fn.Pos()), "failover.cancel() + delete for every partition of the removed stream", "removeStream no longer cancels in-flight failovers of the stream's partitions")
@@ -299,7 +360,7 @@ func runC07(c *eng.Ctx) {
 		c.CheckFieldLocks(eng.LockRule{Field: p.Field("server", "metadataAPI", f), Lock: lock,
 			Exempt: map[string]string{"server.newMetadataAPI": "constructor"}}, "metadataAPI."+f)
 	}
-	c.Floor(11)
+	c.Floor(12)
 }
 
 // sameRead: two values read the same field of the same base (no CSE in go/ssa), or are the same value.
